@@ -129,7 +129,7 @@ func init() {
 	conc08 := plans["C08"]
 	plans["C08"] = func(thorough bool) []*Job {
 		jobs := conc08(thorough)
-		kinds := []string{"inflight-left", "loader-calls", "refresh-channel", "result-mismatch"}
+		kinds := []string{"inflight-left", "loader-calls", "refresh-channel", "result-mismatch", "refresh-result-wrong"}
 		for _, cfg := range []CacheCfg{
 			{Refresh: "writing", RefreshTTL: 40, ClockStart: 1 << 40},
 			{MaxSize: 3, Expiry: "writing", TTL: 100, Refresh: "creating", RefreshTTL: 40, ClockStart: 1 << 40},
